@@ -132,3 +132,44 @@ func NewIdentity(r *Rand, server, keyID string) *Identity {
 }
 
 func (i *Identity) String() string { return fmt.Sprintf("%s/%s", i.Server, i.KeyID) }
+
+// protectedTopLevel are the top-level keys some redaction algorithm keeps.
+var protectedTopLevel = []string{"event_id", "type", "room_id", "sender", "state_key", "content", "hashes", "signatures", "depth", "prev_events", "prev_state", "auth_events", "origin", "origin_server_ts", "membership", "unsigned"}
+
+// AddFoldVariantKeys adds to an event object one or two keys that differ from a protected top-level key, or from a
+// protected content key of the event's type, only by letter case or by a letter that case-folds to ASCII. They are
+// ordinary unknown keys: redactable, covered by the content hash, and never a substitute for the protected key.
+// Returns the keys added ("content." prefix for content keys).
+func AddFoldVariantKeys(r *Rand, ev *ref.Value, evType string) []string {
+	var added []string
+	val := func(of *ref.Value) *ref.Value {
+		if of != nil && r.Chance(0.6) {
+			c := of.Clone()
+			if c.K == ref.Str {
+				c.S += "-variant"
+			}
+			return c
+		}
+		return RandValue(r, JSONOpts{Depth: 1, Width: 2, Numbers: SafeNumbers})
+	}
+	for n := r.Range(1, 2); n > 0; n-- {
+		if keep := keepKeysAllVersions[evType]; len(keep) > 0 && r.Chance(0.4) && ev.Get("content") != nil && ev.Get("content").K == ref.Obj {
+			k := Pick(r, keep)
+			if vs := FoldVariants(k); len(vs) > 0 {
+				v := Pick(r, vs)
+				if ev.Get("content").Get(v) == nil {
+					ev.Get("content").Set(v, val(ev.Get("content").Get(k)))
+					added = append(added, "content."+v)
+				}
+			}
+			continue
+		}
+		k := Pick(r, protectedTopLevel)
+		v := Pick(r, FoldVariants(k))
+		if ev.Get(v) == nil {
+			ev.Set(v, val(ev.Get(k)))
+			added = append(added, v)
+		}
+	}
+	return added
+}
